@@ -69,6 +69,11 @@ const PROBES: &[&str] = &[
     "stel s = string(123); s[-9] = \"x\"; s",
     "stel a = [1, string(2)]; a[-5] = 0; a",
     "[\"abc\"[-7], [1, 2][-3], string(12)[2]]",
+    // ill-typed operations on a parameter (the fused local-with-literal instructions), on null, and
+    // a return where there is no function to leave
+    "functie f(s) { [s < 1, s + 1] } f(string(5))",
+    "functie p() { }; [p() || \"abc\", p() && [1.5, 2], string(77) || p(), p() || 2.5]",
+    "stel a = [1.5, \"x\"]; antwoord a;",
 ];
 
 /// The batch: generated programs over one small shared identifier pool, probe programs that use a
